@@ -124,6 +124,13 @@ def r2_cache_key(ctx):
                 st.value, ast.Subscript) and const_str(
                     st.value.slice) == "hash":
             hv = norm(st.targets[0])
+        elif isinstance(st, ast.Assign) and isinstance(
+                st.value, ast.Call) and isinstance(
+                st.value.func, ast.Attribute) and st.value.func.attr == \
+                "get" and st.value.args and const_str(
+                    st.value.args[0]) == "hash" and "fit_properties" in \
+                norm(st.value.func.value):
+            hv = norm(st.targets[0])
     if hv is None:
         raise Undecided("rate_quality does not read the fit hash")
     needed = [hv] + inputs
@@ -288,12 +295,89 @@ def r3_pass_through(ctx):
                   "otherwise the pipeline prediction",
                   "the prediction branch changed")
     pr = ctx.repo.mod("rate.rater").func("IndentationRater._pre_rate")
-    t = [norm(n.test) for n in walk_no_nested(pr, False)
-         if isinstance(n, ast.If)]
-    ctx.check(any("== 0" in x for x in t), pr,
+    ctx.analysed(pr)
+    ctx.check(_pre_rate_shape(pr), pr,
               "exclusion iff a binary feature equals 0",
               "the exclusion test is no longer 'some binary feature == 0' "
               "(NaN binary features of unfitted curves must not exclude)")
+
+
+def _some_zero(e, arg, R):
+    """e is truthy iff some entry of `arg` equals 0 (NaN entries do not
+    count): sum/any/count_nonzero of `arg == 0`"""
+    e = R.resolve(e)
+    if isinstance(e, ast.Call) and call_name(e) == "bool" and e.args:
+        e = e.args[0]
+    if not isinstance(e, ast.Call):
+        return False
+    if isinstance(e.func, ast.Attribute) and e.func.attr in (
+            "any", "sum") and not e.args and not (call_name(e) or "")\
+            .startswith(("np.", "numpy.")):
+        m = e.func.value
+    elif (call_name(e) or "") in ("np.sum", "np.any", "np.count_nonzero",
+                                  "numpy.sum", "numpy.any", "any", "sum") \
+            and len(e.args) == 1 and not e.keywords:
+        m = e.args[0]
+    else:
+        return False
+    return isinstance(m, ast.Compare) and len(m.ops) == 1 and isinstance(
+        m.ops[0], ast.Eq) and {norm(m.left), norm(m.comparators[0])} == \
+        {arg, "0"}
+
+
+def _no_zero(e, arg, R):
+    """e is truthy iff no entry of `arg` equals 0: all(arg != 0)"""
+    e = R.resolve(e)
+    if isinstance(e, ast.Call) and call_name(e) == "bool" and e.args:
+        e = e.args[0]
+    if isinstance(e, ast.UnaryOp) and isinstance(e.op, ast.Not):
+        return _some_zero(e.operand, arg, R)
+    if not isinstance(e, ast.Call):
+        return False
+    if isinstance(e.func, ast.Attribute) and e.func.attr == "all" and \
+            not e.args and not (call_name(e) or "").startswith("np."):
+        m = e.func.value
+    elif (call_name(e) or "") in ("np.all", "numpy.all", "all") and \
+            len(e.args) == 1 and not e.keywords:
+        m = e.args[0]
+    else:
+        return False
+    return isinstance(m, ast.Compare) and len(m.ops) == 1 and isinstance(
+        m.ops[0], ast.NotEq) and {norm(m.left), norm(m.comparators[0])} == \
+        {arg, "0"}
+
+
+def _pre_rate_shape(pr):
+    """_pre_rate(b) is True iff no entry of b equals 0"""
+    from ..symres import Resolver
+    arg = pr.args.args[1].arg if len(pr.args.args) > 1 else None
+    if arg is None:
+        return False
+    R = Resolver(pr)
+    body = [s for s in pr.body if not (isinstance(s, ast.Expr) and isinstance(
+        s.value, ast.Constant))]
+    # assignments feeding the test / return are resolved by R
+    body = [s for s in body if not isinstance(s, ast.Assign)]
+    if len(body) == 1 and isinstance(body[0], ast.Return):
+        return _no_zero(body[0].value, arg, R)
+    if isinstance(body[0], ast.If):
+        i = body[0]
+        tail = body[1:]
+        def ret_const(stmts):
+            r = [s for s in stmts if not isinstance(s, ast.Expr)]
+            if len(r) == 1 and isinstance(r[0], ast.Return) and isinstance(
+                    r[0].value, ast.Constant) and isinstance(
+                        r[0].value.value, bool):
+                return r[0].value.value
+            return None
+        a = ret_const(i.body)
+        b = ret_const(i.orelse if i.orelse else tail)
+        if a is None or b is None or a == b:
+            return False
+        if a is False:
+            return _some_zero(i.test, arg, R)
+        return _no_zero(i.test, arg, R)
+    return False
 
 
 def _sklearn_init_params(clsname):
